@@ -26,3 +26,6 @@ Deliverables, written to /tmp/wt/{pid}-out/ :
   notes.md     — what the change does, why it breaks the property, what specific circumstances are needed for it to manifest, why the existing tests do not notice, and the commands you ran with their pass/fail outcome (suite with change: pass; demo without change: pass; demo with change: fail)
 Leave the worktree with your change applied and the demo file in place. Reply with a 5-line summary when done.
 """)
+# Round 2 prompts were generated from the same template with the worktree id <PID>r2 and one extra
+# sentence: "Do NOT place your change in <files touched by the round-1 seed> ...; pick a different file
+# and a different clause of the property than the most obvious one."
